@@ -342,8 +342,65 @@ int main(int argc, char** argv) {
   sl.chunk = 16;
   sl.rule = "each of the 24 atoms inside a literal of T plain bytes, T in 250..262, every T in 440..560, and +-2 around 1024, 4096, 65536, after 0, 1, 31, T/2, T-33, T-1, T of them; root, array value, object key and on-demand key";
 
+  // SE: escape-DENSE literals. In-place decoding shrinks the literal: after n escapes the write position lags the read
+  // position by up to 5n bytes (the decoder may switch strategy once the lag exceeds a vector); then a gap, an atom of
+  // every kind, a short gap and a second atom
+  static const char* kLead[4] = {"\\n", "\\u00e9", "\\u20AC", "\\ud83d\\ude00"};
+  static const unsigned kSEg1[4] = {0, 1, 15, 31}, kSEg2[2] = {0, 3};
+  static const unsigned kSEb[3] = {0, 6, 2};  // second atom: plain, \n, backslash-backslash
+  vr::Family se;
+  se.name = "SE_escape_dense";
+  se.count = (uint64_t)41 * 4 * 4 * NA * 2 * 3;
+  se.group = "SE";
+  se.chunk = 512;
+  se.rule = "n = 0..40 leading escapes of one kind (\\n, 2-byte, 3-byte, surrogate pair) then g1 in {0,1,15,31} plain bytes, one of the 24 atoms, g2 in {0,3} plain bytes and a second atom from {plain, \\n, \\\\}: five contexts";
+
+  // SU: every byte in every digit slot of an escape, behind leads that route the escape through different code
+  static std::vector<std::string> SUlead;
+  if (SUlead.empty()) {
+    for (const char* e : {"", "\\\"", "\\\\", "\\n", "\\u0041", "\\\"\\\\", "\\u00e9\\\""}) SUlead.push_back(e);
+    for (unsigned k = 1; k <= 70; k++) SUlead.push_back(std::string(k, 'q'));
+  }
+  vr::Family su;
+  su.name = "SU_escape_digit_bytes";
+  su.count = (uint64_t)SUlead.size() * 12 * 256;
+  su.group = "SU";
+  su.chunk = 1024;
+  su.rule = "every byte 0..255 in each of the 4 digit slots of \\u00e9 and the 8 of \\ud83d\\ude00, behind " + std::to_string(SUlead.size()) + " leads (nothing, escaped quote / backslash / \\n / \\u0041, two escapes, 1..70 plain bytes): five contexts";
   vr::CheckFn check = [&](const vr::Family& f, uint64_t idx, vr::Ctx& ctx) {
     const std::string& nm = f.name;
+    if (nm[0] == 'S' && nm[1] == 'U') {
+      unsigned byte = (unsigned)(idx % 256);
+      idx /= 256;
+      unsigned slot = (unsigned)(idx % 12);
+      std::string esc = slot < 4 ? "\\u00e9" : "\\ud83d\\ude00";
+      esc[slot < 4 ? 2 + slot : slot < 8 ? 2 + (slot - 4) : 8 + (slot - 8)] = (char)byte;
+      std::string body = SUlead[idx / 12] + esc;
+      if (ctx.want_sample) ctx.sample(vr::hex(body));
+      check_body(body, ctx);
+      return;
+    }
+    if (nm[0] == 'S' && nm[1] == 'E') {
+      unsigned b = kSEb[idx % 3];
+      idx /= 3;
+      unsigned g2 = kSEg2[idx % 2];
+      idx /= 2;
+      const std::string& atom = A[idx % NA];
+      idx /= NA;
+      unsigned g1 = kSEg1[idx % 4];
+      idx /= 4;
+      const char* lead = kLead[idx % 4];
+      unsigned n = (unsigned)(idx / 4);
+      std::string body;
+      for (unsigned i = 0; i < n; i++) body += lead;
+      body.append(g1, 'q');
+      body += atom;
+      body.append(g2, 'r');
+      body += A[b];
+      if (ctx.want_sample) ctx.sample(std::to_string(n) + " x " + lead + " + " + vr::hex(atom));
+      check_body(body, ctx);
+      return;
+    }
     if (nm[0] == 'S' && nm[1] == 'L') {
       const std::string& atom = A[idx % NA];
       auto pq = SLp[idx / NA];
@@ -494,7 +551,7 @@ int main(int argc, char** argv) {
     check_pair_direct((uint32_t)(idx >> 16), (uint32_t)(idx & 0xffff), ctx, false);
   };
 
-  std::vector<vr::Family> fams = {s1, s1r, s3, u1, u3, p2, sl, u2a, u2b};
+  std::vector<vr::Family> fams = {s1, s1r, s3, u1, u3, p2, sl, se, su, u2a, u2b};
   if (!quick && !asan) fams.push_back(u2c);
   if (args.replay) {
     std::vector<vr::Family> all = {s1, s1r, s3, u1, u3, p2, u2a, u2b, u2c};
